@@ -14,7 +14,10 @@ shutil.rmtree(wt, ignore_errors=True)
 os.makedirs("/tmp/tryseed", exist_ok=True)
 subprocess.check_call(["git", "-C", "/repo", "worktree", "add", "-q", "--detach", wt, "HEAD"])
 try:
-    subprocess.check_call(["git", "-C", wt, "apply", os.path.join(V, "seeded", tag, "patch.diff")])
+    patch = os.path.join(V, "seeded", tag, "patch.diff")
+    if not os.path.exists(patch):
+        patch = os.path.join(V, "selftest", "mutants", tag + ".patch")
+    subprocess.check_call(["git", "-C", wt, "apply", patch])
     env = dict(os.environ, OWLCHESS_REPO=wt)
     fired = []
     for pid in pids:
@@ -30,7 +33,7 @@ try:
     print("FIRED:", fired)
     if "--record" in sys.argv:
         mp = os.path.join(V, "seeded", tag, "meta.json")
-        m = json.load(open(mp))
+        m = json.load(open(mp)) if os.path.exists(mp) else {}
         m["detected_by"] = sorted(set(m.get("detected_by", [])) | set(fired))
         json.dump(m, open(mp, "w"), indent=1)
 finally:
